@@ -14,7 +14,7 @@ F_EXPL = "C10-regex-explicit-anchor"
 F_ESC = "C10-regex-escaped-bytes"
 F_NIL = "C10-negated-matchall-showseries"
 F_DUP = "C10-cacheclear-unflushed"
-F_COLL = "C10-tagfilter-cache-literal-collision"
+F_LIT = "C10-regex-literal-overwrites-filter-value"
 BASE = (1 << 40) | 1000          # logical clock 1, sequence 1000: the harness' initial generator value
 
 
@@ -120,9 +120,15 @@ class CaseView:
         self.c = c
         self.tab = {}           # pattern -> {value: (u, i)}: Go regexp's answer, the index's answer
         self.ast = {}
+        self.prune = {}
+        self.ptab = {}          # pattern -> {value: what the pruning path matches}
+        self.vtext = {}
         for a in c.get("atoms") or []:
             self.tab[a["pat"]] = {r["v"]: (r["u"], r["i"]) for r in a["rows"]}
+            self.ptab[a["pat"]] = {r["v"]: r.get("p", r["u"]) for r in a["rows"]}
             self.ast[a["pat"]] = a.get("ast")
+            self.prune[a["pat"]] = a.get("prune") or a.get("ast")
+            self.vtext[a["pat"]] = a.get("vtext", a["pat"])
         # series written before each op index
         self.before = []
         cur = []
@@ -155,6 +161,18 @@ class CaseView:
             if u != i:
                 out.append((p, v))
         return out
+
+    def prune_discrepant(self, opi, mst, atom):
+        """values relevant to this atom occurrence on which the pruning path's reading of the pattern differs from Go regexp"""
+        p = atom["v"]
+        return [v for v in self.relevant_values(opi, mst, atom["k"])
+                if v in self.tab.get(p, {}) and self.ptab[p][v] != self.tab[p][v][0]]
+
+    def reading_differs(self, opi, mst, atom):
+        """the index's reading and the pruning path's reading of this atom differ on a relevant value"""
+        p = atom["v"]
+        return any(v in self.tab.get(p, {}) and self.ptab[p][v] != self.tab[p][v][1]
+                   for v in self.relevant_values(opi, mst, atom["k"]))
 
     def dup_events(self):
         """op indices b of inserts matching the signature of C10-cacheclear-unflushed: same key inserted at a<b, a cache clear
@@ -198,7 +216,7 @@ def case_coq(c, it_factory=Intern):
                 it.str("host")
             else:
                 e = expr_coq(x, it, lambda a: 0)
-                occ = [a for a in atoms_of(x, []) if a["o"] in ("re", "nre") and cv.discrepant(opi, o["mst"], a)]
+                occ = [a for a in atoms_of(x, []) if a["o"] in ("re", "nre") and cv.reading_differs(opi, o["mst"], a)]
                 alts = []
                 if 0 < len(occ) <= 5:
                     for bits in itertools.product((0, 1), repeat=len(occ)):
@@ -223,7 +241,7 @@ def case_coq(c, it_factory=Intern):
     for p, rws in cv.tab.items():
         for v, (u, i) in rws.items():
             rows.append("(%d, %d, %s, %s)" % (it.patno(p), it.val(v), coq_bool(u), coq_bool(i)))
-    pats = ["(%d, %s)" % (it.patno(p), ast_coq(cv.ast.get(p))) for p in it.p]
+    pats = ["(%d, %s, %s)" % (it.patno(p), ast_coq(cv.ast.get(p)), ast_coq(cv.prune.get(p))) for p in it.p]
     strs = ["(%d, %s)" % (it.str(v), runes(v)) for v in sorted(it.vals) if v != ""]
     return "(%d, %s, %s, %s, %s)" % (BASE, coq_list(pats), coq_list(strs), coq_list(rows), coq_list(ops))
 
@@ -233,7 +251,7 @@ def matrix_coq(m):
     for p in m["pats"]:
         rows = ["(%s, %s, %s)" % ("None" if r["v"] == "" else "(Some %s)" % runes(r["v"]), coq_bool(r["u"]), coq_bool(r["i"]))
                 for r in p["rows"]]
-        ps.append("mkMP %s %s %s %s %s %s %s" % (ast_coq(p["ast"]), ast_coq(p["final"]), runes(p["prefix"]), coq_bool(p["has_sfx"]),
+        ps.append("mkMP %s %s %s %s %s %s %s %s %s" % (runes(p["pat"]), runes(p.get("vtext", p["pat"])), ast_coq(p["ast"]), ast_coq(p["final"]), runes(p["prefix"]), coq_bool(p["has_sfx"]),
                                                   ast_coq(p.get("sfx")), coq_list([runes(x) for x in p["orv"]]), coq_list(rows)))
     return ps
 
@@ -265,7 +283,7 @@ def classify_pair(classes, p, v):
 
 
 def collision_events(cv):
-    """op indices of select-path queries matching the signature of C10-tagfilter-cache-literal-collision: the query has a regex
+    """op indices of select-path queries matching branch (a) of the signature of C10-regex-literal-overwrites-filter-value: the query has a regex
     atom (key k, pattern p) whose pattern is a pure literal after the translation's simplification (tf.value is overwritten
     with the literal text L), and an earlier query of the case on the same measurement has a regex atom on k with the same
     negation whose tag-filter cache key text equals L while its pattern is a different one"""
@@ -314,10 +332,15 @@ def sources_of_failure(cv, f, classes, cr_current):
             if a["o"] in ("re", "nre"):
                 for p, v in cv.discrepant(opi, o["mst"], a):
                     src.add(classify_pair(classes, p, v) if cr_current else None)
+                # branch (b) of the literal-overwrite finding: the pruning path compiles the filter's value text, which today is
+                # the literal the pattern was reduced to (model: cache_literal), and that text read as an expression matches a
+                # relevant value differently from the pattern
+                if f.get("path") == 2 and cv.keytext.get(a["v"], a["v"]) != a["v"] and cv.prune_discrepant(opi, o["mst"], a):
+                    src.add(F_LIT)
         if f.get("path") == 1 and opi in getattr(cv, "nil_ops", ()):
             src.add(F_NIL)
         if f.get("path") == 2 and opi in cv.collisions:
-            src.add(F_COLL)
+            src.add(F_LIT)
         if dups:
             src.add(F_DUP)
         if not src:
@@ -333,8 +356,8 @@ WHAT = {
     "C10-regex-escaped-bytes": "regex tag predicate is matched against the escaped form of values containing bytes 0x00-0x02",
     "C10-negated-matchall-showseries": "show-series/drop-series path: a negated regex matching the empty string acts as 'no constraint' under AND/OR",
     "C10-cacheclear-unflushed": "cache clear before the index flush: re-inserting the series key creates a second id",
-    "C10-tagfilter-cache-literal-collision": "select path: the tag-filter result cache serves /a.c/'s result for /a\\.c/ (the cache key of a "
-                                             "pure-literal regex is the literal text)",
+    "C10-regex-literal-overwrites-filter-value": "select path: a regex reduced to a literal overwrites the filter's value with the literal text, so "
+                                                 "/a\\.c/ shares the result-cache key of /a.c/ and the pruning path compiles the literal as an expression",
 }
 
 
@@ -450,7 +473,7 @@ def main(ck):
                 # reduces to a pure literal (tf.value is overwritten), else the pattern's source text
                 for p, l in zip(patlist, lits):
                     keytext[p] = "".join(chr(x) for x in l) if l is not None else p
-    stale = {F_ANCH, F_EXPL, F_ESC, F_NIL, F_DUP, F_COLL}
+    stale = {F_ANCH, F_EXPL, F_ESC, F_NIL, F_DUP, F_LIT}
     nviol = 0
     tree_regex_current = False
     if ok:
